@@ -504,7 +504,8 @@ func GetDisplayStyle(node *html.Node) string {
 	style := dom.GetAttribute(node, "style")
 	parts := rxDisplay.FindStringSubmatch(style)
 	if len(parts) >= 2 {
-		return parts[1]
+		// CSS keywords are case-insensitive
+		return strings.ToLower(parts[1])
 	}
 
 	// Use default display
